@@ -30,7 +30,6 @@ Three families of cases, all decided by an oracle that shares no code with cubed
 """
 from __future__ import annotations
 
-import inspect
 import itertools
 import sys
 from collections import Counter
@@ -886,7 +885,6 @@ def tree_stats(tree, g, dag_opt):
     removed = {o for o in prod if o not in dag_opt}
     labels = set()
     nt = False
-    maxdepth = 1
     nfused = 0
 
     def chain(node):
@@ -922,7 +920,6 @@ def tree_stats(tree, g, dag_opt):
                 labels.add("p2:multi-output-root-fused")
             if s or r:
                 nt = True
-        maxdepth = max(maxdepth, d)
     for node in tree["nodes"]:
         for i in set(node["ins"]):
             if i in removed:
@@ -1448,7 +1445,7 @@ def check_case(case) -> Outcome:
 
 EXHAUSTIVE = {
     # name: (nargs, argmax, outmax, number of parts)
-    "thorough": [(1, 4, 4, 1), (2, 4, 4, 10), (3, 2, 4, 4)],
+    "thorough": [(1, 4, 4, 1), (2, 4, 4, 9), (3, 2, 4, 5)],
     "quick": [(1, 4, 4, 1), (2, 2, 2, 1)],
 }
 
@@ -1459,14 +1456,15 @@ def shards(tier):
         out += [{"kind": "expr", "name": f"expr{i}", "n": 3500} for i in range(2)]
         out += [{"kind": "enum", "name": "enum-small", "slices": [[1, 4, 4, 0, 1], [2, 2, 2, 0, 1]]}]
         out += [{"kind": "tree", "name": f"tree{i}", "n": 1500} for i in range(3)]
-        out += [{"kind": "plan", "name": "plan0", "n": 120, "named": True, "rotate": 0}]
-        out += [{"kind": "plan", "name": "plan1", "n": 150, "rotate": 31}]
+        out += [{"kind": "plan", "name": "plan0", "n": 200, "named": True, "rotate": 0}]
+        out += [{"kind": "plan", "name": "plan1", "n": 450, "rotate": 31}]
         return out
+    # long Hypothesis shards first, then the enumeration slices (roughly equal CPU each)
+    out += [{"kind": "expr", "name": f"expr{i}", "n": 60000} for i in range(2)]
+    out += [{"kind": "tree", "name": f"tree{i}", "n": 35000} for i in range(6)]
     for nargs, amax, omax, parts in EXHAUSTIVE["thorough"]:
         for p in range(parts):
             out.append({"kind": "enum", "name": f"enum-{nargs}args-{p}of{parts}", "slices": [[nargs, amax, omax, p, parts]]})
-    out += [{"kind": "expr", "name": f"expr{i}", "n": 120000} for i in range(2)]
-    out += [{"kind": "tree", "name": f"tree{i}", "n": 40000} for i in range(6)]
     out += [{"kind": "plan", "name": "plan0", "n": 4000, "named": True, "rotate": 0}]
     out += [{"kind": "plan", "name": f"plan{i}", "n": 4000, "rotate": 17 * i} for i in (1, 2)]
     return out
@@ -1489,6 +1487,15 @@ def _observe_plain(acc, case, out, nt_cap):
 
 
 def run_shard(spec, seed, tier) -> Acc:
+    import time
+
+    t0 = time.process_time()
+    acc = _run_shard(spec, seed, tier)
+    acc.extra.setdefault("shard_cpu_s", {})[spec.get("name", spec.get("kind", "?"))] = round(time.process_time() - t0, 1)
+    return acc
+
+
+def _run_shard(spec, seed, tier) -> Acc:
     acc = Acc()
     is_known, _ = core.known_matcher(ID)
     kind = spec["kind"]
@@ -1509,7 +1516,7 @@ def run_shard(spec, seed, tier) -> Acc:
                 _observe_plain(acc, case, out, 40000)
                 n += 1
         acc.bump("expressions_enumerated", n)
-        acc.exhaustive = True
+        acc.extra["enumeration_complete"] = "yes (every shard enumerates its slice of the stated domain to the end; no sampling, no time budget)"
         acc.extra["enumerated_domain"] = (
             "index expressions over 4 symbols named by first appearance: "
             + ("1 arg <= 4 dims, 2 args <= 4 dims, 3 args <= 2 dims" if tier == "thorough" else "1 arg <= 4 dims, 2 args <= 2 dims (out <= 2 dims)")
